@@ -54,6 +54,7 @@ type dnet struct {
 	lenNew  int
 	target  []byte
 	hdrLen  int
+	ecdhe   bool
 	retrans [2]int // datagrams written per direction
 }
 
@@ -94,8 +95,8 @@ func (e *dend) peerAddr() net.Addr {
 	}
 	return addrC
 }
-func (e *dend) SetDeadline(t time.Time) error      { return e.SetReadDeadline(t) }
-func (e *dend) SetWriteDeadline(time.Time) error   { return nil }
+func (e *dend) SetDeadline(t time.Time) error    { return e.SetReadDeadline(t) }
+func (e *dend) SetWriteDeadline(time.Time) error { return nil }
 func (e *dend) SetReadDeadline(t time.Time) error {
 	n := e.n
 	n.mu.Lock()
@@ -342,6 +343,13 @@ func (n *dnet) route(d, idx int, rec []byte) ([]byte, bool) {
 		n.applied = ok
 		n.lenOld, n.lenNew = old, nw
 		return cp, false
+	case "splice":
+		cp, ok := rec, false
+		if resolveSplice(rec, true, protectedAt(n.seen[d], idx), n.ecdhe, ed) {
+			cp, ok = applySplice(rec, ed)
+		}
+		n.applied = ok
+		return cp, false
 	case "drop":
 		return nil, false
 	case "dup":
@@ -395,6 +403,12 @@ func dtlcpConfigs(cf config, n *dnet) (*dtlcp.Config, *dtlcp.Config, *[]uint8, *
 	}
 	if cf.resume {
 		scfg.SessionCache = dtlcp.NewLRUSessionCache(8)
+	}
+	if cf.bare {
+		// no ALPN and no server name (the client then cannot check the host name): neither hello
+		// needs an extension the other answers, the ServerHello has no extension block at all
+		ccfg.NextProtos, scfg.NextProtos = nil, nil
+		ccfg.ServerName, ccfg.InsecureSkipVerify = "", true
 	}
 	if cf.sni {
 		other := scfg.Clone()
@@ -466,6 +480,7 @@ func runDTLCP(cf config, ed edit) outcome {
 		*calerts, *salerts = nil, nil
 	}
 	n := newDNet(ed)
+	n.ecdhe = cf.ecdhe()
 	n.start()
 	c, s, cerr, serr, cp, sp := runDTLCPOnce(n, ccfg, scfg)
 	var out outcome
